@@ -20,7 +20,9 @@ CONSTANTS N,          \* TXIDs 1..N
           MaxFiles,   \* file sets with at most this many files
           MaxTs,      \* file timestamps 1..MaxTs, request timestamps 1..MaxTs+1
           Part, Parts,\* shard: this TLC process takes the file sets with Shard(keys) = Part
-          Fanout      \* see above
+          Fanout,     \* see above
+          TsOnly      \* TRUE: only the timestamp requests <<0, T>> (target-TXID / latest requests do not depend on
+                      \* file timestamps: they are enumerated with MaxTs = 1 by another configuration)
 
 Keys == {k \in Levels \X (1..N) \X (1..N) : k[2] <= k[3] /\ (k[1] = SnapLvl => k[2] = 1)}
 Weight(k) == k[1] * N * N + (k[2] - 1) * N + (k[3] - 1)          \* injective on Keys: a total order
@@ -30,7 +32,7 @@ Shard(KS) == FoldSet(LAMBDA k, acc : acc + Weight(k), 0, KS) % Parts
 \* res / reach memoise Planner's result and the declarative reach set per request (functions of `files`).
 VARIABLES ph, files, res, reach
 vars == <<ph, files, res, reach>>
-Reqs == {<<tx, 0>> : tx \in 0..N} \cup {<<0, T>> : T \in 1..(MaxTs + 1)}
+Reqs == (IF TsOnly THEN {} ELSE {<<tx, 0>> : tx \in 0..N}) \cup {<<0, T>> : T \in 1..(MaxTs + 1)}
 IsSet == ph = -1
 
 \* v = the state of file set fs
